@@ -257,13 +257,13 @@ func newHarness() (*harness, error) {
 	h.f = f
 	rh := h.respond("route handler")
 	f.MustHandle("GET", "/p/{tok}/x/{tok2}", rh)
-	f.MustHandle("GET", "{tok}.example.com/h/{tok2}", rh)
+	f.MustHandle("PATCH", "{tok}.example.com/h/{tok2}", rh)
 	f.MustHandle("GET", "/c/*{tok}", rh)
 	f.MustHandle("GET", "/ts/{tok}/", rh, fox.WithIgnoreTrailingSlash(true))
 	f.MustHandle("GET", "/tr/{tok}/y/{tok2}", rh, fox.WithIgnoreTrailingSlash(true))
 	f.MustHandle("GET", "/rd/{tok}/", rh, fox.WithRedirectTrailingSlash(true))
 	// trailing-slash matches whose infix catch-alls are evaluated on pooled sub-contexts
-	f.MustHandle("GET", "{tok}.infix.example.com/d/*{tok2}/m/", rh, fox.WithIgnoreTrailingSlash(true))
+	f.MustHandle("PATCH", "{tok}.infix.example.com/d/*{tok2}/m/", rh, fox.WithIgnoreTrailingSlash(true))
 	f.MustHandle("GET", "/dd/*{tok}/m/*{tok2}/end/", rh, fox.WithIgnoreTrailingSlash(true))
 	f.MustHandle("GET", "/in/*{tok}/x/{tok2}", rh)
 	f.MustHandle("POST", "/m/{tok}", rh)
@@ -279,6 +279,7 @@ func buildStep(s Step, tok string, n int) (*http.Request, *exp) {
 	case "direct", "lookup":
 		path, e.pattern, e.params = "/p/"+tok+"/x/"+tok, "/p/{tok}/x/{tok2}", []string{"tok", "tok2"}
 	case "host":
+		method = "PATCH"
 		host, path, e.pattern, e.params = tok+".example.com", "/h/"+tok, "{tok}.example.com/h/{tok2}", []string{"tok", "tok2"}
 	case "catchall":
 		path, e.pattern, e.params = "/c/"+tok, "/c/*{tok}", []string{"tok"}
@@ -287,6 +288,7 @@ func buildStep(s Step, tok string, n int) (*http.Request, *exp) {
 	case "ignore-remove":
 		path, e.pattern, e.params = "/tr/"+tok+"/y/"+tok+"/", "/tr/{tok}/y/{tok2}", []string{"tok", "tok2"}
 	case "host-infix-tsr":
+		method = "PATCH"
 		host, path, e.pattern, e.params = tok+".infix.example.com", "/d/"+tok+"/m", "{tok}.infix.example.com/d/*{tok2}/m/", []string{"tok", "tok2"}
 	case "double-infix-tsr":
 		path, e.pattern, e.params = "/dd/"+tok+"/m/"+tok+"/end", "/dd/*{tok}/m/*{tok2}/end/", []string{"tok", "tok2"}
